@@ -31,8 +31,37 @@ pub fn dispatch(cmd: &str, args: &Args) -> Option<i32> {
         "c05-redirect" => redirect(args),
         "c05-convert" => convert(args),
         "c05-one" => one(args),
+        "c05-long" => long_word(args),
         _ => return None,
     })
+}
+
+// ------------------------------------------------------------------------------------------
+// long words (run in a child process by the driver: a stack overflow cannot be caught)
+// ------------------------------------------------------------------------------------------
+/// Words of `n` characters under three one-rule programs in which every character is absorbed
+/// (AA -> LIG A), kerned (AA -> KRN) or left alone; prints the number of items and originals.
+fn long_word(args: &Args) -> i32 {
+    let n: usize = args.num("n", 300_000);
+    let mut out = Out::new(args.str("out"));
+    for (name, rule) in [("absorbed", "(LIG C A C A)"), ("kerned", "(KRN C A R 0.5)"), ("plain", "(KRN C B R 0.5)")] {
+        let src = format!("(CHARACTER C A (CHARWD R 1.0))\n(CHARACTER C B (CHARWD R 1.0))\n(LIGTABLE (LABEL C A) {rule} (STOP))\n");
+        let (file, _) = tfm::pl::File::from_pl_source_code(&src);
+        let (cp, _) = CompiledProgram::compile_from_pl_file(&file);
+        let word: String = "A".repeat(n);
+        let (mut items, mut originals) = (0u64, 0u64);
+        for it in cp.run(&word) {
+            items += 1;
+            originals += match it {
+                tfm::ligkern::RunItem::Char(_) => 1,
+                tfm::ligkern::RunItem::Ligature(l) => l.original.chars().count() as u64,
+                tfm::ligkern::RunItem::Kern(_) => 0,
+            };
+        }
+        out.line(&json!({"ev":"long","program":name,"n":n,"items":items,"originals":originals}));
+    }
+    out.flush();
+    0
 }
 
 // ------------------------------------------------------------------------------------------
